@@ -420,7 +420,7 @@ OPS = {
 
 def execute(ctx, case):
     spec = G.spec_from_recipe(case["tree"])
-    tree = G.build(spec)
+    tree = G.build(spec, frozen_ok=True)
     try:
         with warnings.catch_warnings():
             warnings.simplefilter("ignore")
